@@ -660,8 +660,6 @@ class RefParser:
         brace_i = self.i
         if d.has('T') and not d.has('M'):
             raise _Stop(UNSPEC, name_i, 'title on a single section')
-        if d.has('N'):
-            raise _Stop(UNSPEC, name_i, 'NODEFAULT section')
         if sec.keystrval and not d.has('K'):
             raise _Stop(UNSPEC, name_i, 'section nested in a free-form section')
         if title is not None and b'\0' in title:
@@ -669,6 +667,9 @@ class RefParser:
         self.i += 1
         o.modified = True
         if not d.has('M'):
+            if not o.values:
+                # a single section declared NODEFAULT does not exist until the text mentions it
+                o.values.append(SecState(d.sub, sec.nocase, sec.keystrval or d.has('K'), None))
             inst = o.values[0]
         else:
             inst = SecState(d.sub, sec.nocase, sec.keystrval or d.has('K'), title)
